@@ -8,6 +8,13 @@ LEVEL_NOTE = ("Seeded search, not proof: a clean batch is evidence for the runs 
               "engine checks the external dsharp/maxsatz binaries shipped with the repository, which run as real code.")
 
 CLAIMED = {
+ "C23": dict(
+    technique="deterministic simulation: virtual alarm (line-count clock via sys.settrace) interrupting the anytime k-best evaluator at seeded simulated times; oracle = independent possible-world enumerator",
+    text="The interval answer of the k-best evaluator exists only under interruption, so a simulated clock (count of source lines executed in problog/) raises the same "
+         "KeyboardInterrupt that util.start_timer's SIGALRM would, at seeded times drawn uniformly over the run and biased to just after Border.update / solver calls / "
+         "blocking-clause insertion. Every returned value or interval is judged against exact probabilities from a reference enumerator that shares no code with ProbLog; "
+         "plus per program a fault-free run (must be tight) and an explain run (per-query proof probabilities must sum to the exact probability). Real maxsatz runs. Exploration level.",
+    design_ref="DESIGN.md §5 C23", quick_t=900, thorough_t=3600),
  "C11": dict(
     technique="deterministic simulation: seeded histories of builder calls vs symbolic model with late-bound cells, truth tables after every call, invalid-call faults, ddmin replay",
     text="Seeded histories of LogicFormula builder calls (add_atom incl. deterministic and AD-group atoms, add_and, add_or readonly/mutable, add_disjunct incl. positive "
